@@ -443,6 +443,12 @@ def gen_wrap_text(rng):
             # nested: a repetition inside a repetition referring to a label of the text
             src += ["\trept 2", "\tirpc ch,\"12\"", "\tdb ch,%s&255" % t, "\tendm", "\tendm"]
             items.append(("bytes", [1, ("lo", t), 2, ("lo", t)] * 2))
+        elif r < 0.90:
+            # string and character constants that end in an escaped backslash or contain escaped quotes, with further operands behind
+            body_, bs_ = rng.choice([("C:\\\\", [67, 58, 92]), ("\\\\", [92]), ("a\\\"b", [97, 34, 98]), ("x\\\\\\\\", [120, 92, 92]), ("q;\\\\", [113, 59, 92])])
+            v = rng.randrange(256)
+            src.append("\tdb \"%s\",%d" % (body_, v))
+            items.append(("bytes", bs_ + [v]))
         elif r < 0.93:
             # text of any 8-bit character set inside a string constant (and in the comment behind it): the manual places no
             # restriction on the characters of a string, whatever way the line reaches the assembler
@@ -484,6 +490,8 @@ def wrap_variants(rng, src):
     out.append(("to-macro-after-other-expansion",
                 {"w.asm": e.join(head + ["c16pre\tmacro", "\tendm", "\tc16pre", "c16wrap\tmacro"] + body + ["\tendm", "\tc16wrap"]) + e}))
     out.append(("to-include", {"w.asm": e.join(head + ["\tinclude \"c16body.inc\""]) + e, "c16body.inc": e.join(body) + e}))
+    # comments and blanks are immaterial: a comment behind every line of the text (labels, macro/repetition headers, ENDM included)
+    out.append(("comments-added", {"w.asm": e.join(head + [l + rng.choice(["\t; note", " ;x", ";", "\t\t; a 'quote\" ; in ; it"]) for l in body]) + e}))
     out.append(("to-include-in-macro", {"w.asm": e.join(head + ["c16wrap\tmacro", "\tinclude \"c16body.inc\"", "\tendm", "\tC16WRAP"]) + e,
                                         "c16body.inc": e.join(body) + e}))
     return out
